@@ -19,7 +19,7 @@ TECHNIQUE = "per-variable differential between the transpiled model and an evalu
 RULE = ("documents of 3 kinds: (table) the exhaustive depth-2 table outer x position x inner over + - * / ^ MOD and unary minus, IF/THEN/ELSE with "
         "compound comparison operands, AND/OR chains, NOT(...), each built-in (ABS MIN MAX INT SQRT EXP LN LOG10 SIN COS TAN SAFEDIV ROUND PERCENT "
         "STEP RAMP SINWAVE COSWAVE PULSE) with compound arguments, in 4 spellings; (random) seeded trees to depth 5 in 2 spellings with 7 variable-name shapes "
-        "(plain, underscore, space, quoted, upper, mixed case, digit suffix); (loud) one out-of-grammar equation per document: unknown function, "
+        "(plain, underscore, space, quoted, upper, mixed case, digit suffix); comparisons of exactly equal operands and literals with up to 10 significant digits are included; (loud) one out-of-grammar equation per document: unknown function, "
         "dangling operator, unbalanced parentheses, unknown identifier, keyword misuse. programs = documents compiled; distinct_nontrivial = "
         "distinct (outer, position, inner) / tree digests whose value changes if compound operands are pasted without parentheses.")
 ASSUMPTIONS = ["^ binds tighter than unary minus, which binds tighter than * / MOD; chains of ^ are always printed with explicit parentheses",
@@ -28,7 +28,7 @@ ASSUMPTIONS = ["^ binds tighter than unary minus, which binds tighter than * / M
 REQUIRED = {"documents_compiled": 20, "variables_compared": 1000, "loud_cases": 8, "ir_nodes_seen": 1000}
 BUDGET_S = {"quick": 110, "thorough": 1500}
 
-CONSTS = [("alpha", 7.0), ("beta_gamma", 3.0), ("Delta Eps", 2.0), ("ZETA", 1.5), ("eta1", 0.5), ("Theta_X y", 4.0), ("nu", -2.5), ("rate+x#1", 2.5)]
+CONSTS = [("alpha", 7.0), ("beta_gamma", 3.0), ("Delta Eps", 2.0), ("ZETA", 1.5), ("eta1", 0.5), ("Theta_X y", 4.0), ("nu", -2.5), ("rate+x#1", 2.5), ("alpha_twin", 7.0)]
 BIN = ["+", "-", "*", "/", "**", "%"]
 CMP = ["<", ">", "<=", ">=", "==", "!="]
 FN1 = ["ABS", "INT", "SQRT", "EXP", "LN", "LOG10", "SIN", "COS", "TAN", "ROUND", "PERCENT"]
@@ -126,7 +126,8 @@ def _ev(a, env):
         return -_ev(a[1], env)
     if a[0] in ("cmp",):
         x, y = _ev(a[2], env), _ev(a[3], env)
-        env.cond(x - y, max(abs(x), abs(y)))
+        if not (a[2][0] in ("ref", "num", "time") and a[3][0] in ("ref", "num", "time")):
+            env.cond(x - y, max(abs(x), abs(y)))      # leaves are exact: a comparison of two equal leaves is well defined
         return X.CMPOPS[a[1]](x, y)
     if a[0] == "if":
         return _ev(a[2], env) if _ev(a[1], env) else _ev(a[3], env)
@@ -149,7 +150,7 @@ def leaf(rng):
     if r < 0.65:
         return rng.choice(REFS)
     if r < 0.85:
-        return ["num", rng.choice([2.0, 0.25, 3.0, 10.0, 1.5])]
+        return ["num", rng.choice([2.0, 0.25, 3.0, 10.0, 1.5, 1234.5678, 3.14159265, 0.000123456789])]
     if r < 0.93:
         return ["time"]
     return ["ref", "nu"]
@@ -236,6 +237,18 @@ def table():
         out.append(("if-as-right-operand-false@%s" % op, ["bin", op, C, ["if", cf, ["num", 10.0], ["num", 20.0]]]))
         out.append(("if-as-right-operand-in-arg@%s" % op, ["call", "MIN", ["bin", op, C, ["if", cf, B, A]], ["num", 100.0]]))
         out.append(("if-in-else-branch@%s" % op, ["if", cf, A, ["bin", op, C, ["if", cf, B, D]]]))
+    # comparisons of exactly equal operands (every operator, plain and under NOT) and of TIME with a grid time
+    TW = ["ref", "alpha_twin"]
+    for c in CMP:
+        out.append(("equal-operands-cmp%s" % c, ["if", ["cmp", c, A, TW], D, E]))
+        out.append(("equal-operands-not-cmp%s" % c, ["if", ["not", ["cmp", c, A, TW]], D, E]))
+        out.append(("time-at-threshold-cmp%s" % c, ["if", ["cmp", c, ["time"], ["num", 1.5]], D, E]))
+        out.append(("time-at-threshold-not-cmp%s" % c, ["if", ["not", ["cmp", c, ["time"], ["num", 1.5]]], D, E]))
+    # literals with many significant digits
+    out.append(("long-literal-diff", ["bin", "+", ["bin", "-", ["num", 1000001.0], ["num", 1000000.0]], A]))
+    out.append(("long-literal-pi", ["bin", "*", ["num", 3.14159265], A]))
+    out.append(("long-literal-small", ["bin", "*", ["num", 0.000123456789], A]))
+    out.append(("long-literal-threshold", ["if", ["cmp", ">", ["num", 7.0], ["num", 6.9999999]], D, E]))
     out.append(("nested-if-then", ["if", c1, ["if", c2, A, B], C]))
     out.append(("nested-if-else", ["if", c1, A, ["if", c2, B, C]]))
     return out
